@@ -435,6 +435,10 @@ class DataFile:
       # skip user data and reserved blocks
       return
 
+    if tti.CF == 0x01:
+      # skip blocks whose text field contains comments, which are not intended for transmission
+      return
+
     if not self.is_in_extension:
       self.tti_tf = b''
 
